@@ -514,7 +514,7 @@ func (ctx Ctx) selectorMethod(f *ast.SelectorExpr, call *ast.CallExpr) coq.Expr 
 	case *types.Struct:
 		structInfo, ok := ctx.getStructInfo(selectorType)
 		if !ok {
-			panic("expected struct")
+			ctx.unsupported(f, "call through a field of unnamed struct type %v", deref)
 		}
 
 		// see if f.Sel.Name is a struct field, and translate accordingly if so
